@@ -711,7 +711,92 @@ fn binom(n: usize, k: usize) -> usize {
     r
 }
 
+/// Contig-sized sequences: no state-space search (the start space is far too large), but a few fixed RNG
+/// scripts of several steps each, checked against the same recount. Exercises the widths of the
+/// per-sequence symbol counters (more than 2^16 occurrences of one symbol in one sequence).
+fn run_large(ctx: &mut Ctx, rep: &mut Report) {
+    rep.space(
+        "large",
+        "3 DNA sequences of 66 000 - 70 000 symbols in which one symbol occurs more than 65 536 times (plus a masked stretch of N), width 3, both modes, 3 dispatcher arms x 4 fixed RNG scripts of 5 steps; \
+         no search, the same recount oracle on every step (counter widths, long striped rows)",
+    );
+    let mk = |len: usize, major: u8, salt: usize| -> Vec<u8> {
+        (0..len)
+            .map(|i| {
+                if (i * 7 + salt) % 29 == 0 {
+                    ((i / 29 + salt) % 4) as u8
+                } else if i % 997 < 5 {
+                    4u8
+                } else {
+                    major
+                }
+            })
+            .collect()
+    };
+    let ds = Dataset { alpha: "dna", seqs: vec![mk(70_000, 0, 1), mk(68_500, 1, 2), mk(66_000, 0, 3)], width: 3 };
+    let params = [Params { zoops: false, seeds: 0, inertia: 0, patience: 0 }, Params { zoops: true, seeds: 2, inertia: 1, patience: 2 }];
+    let mut idx = 1000u64;
+    for pr in &params {
+        for arm in cfgs::FORCED {
+            for script in 0..4usize {
+                let mine = ctx.mine(idx);
+                idx += 1;
+                if !mine {
+                    continue;
+                }
+                let ninit = ds.seqs.len() + if pr.zoops { pr.seeds } else { 0 };
+                let init: Vec<f64> = (0..ninit).map(|i| ((i * 5 + script * 3) as f64 * 0.173 + 0.061) % 1.0).collect();
+                let steps: Vec<[f64; 2]> = (0..5).map(|i| [((i + script) as f64 * 0.291 + 0.07) % 1.0, ((i * 3 + script) as f64 * 0.377 + 0.013) % 1.0]).collect();
+                let h = Hist { init: init.clone(), steps: steps.clone() };
+                let sig = |s: &str| format!("C16 {} {} {} large {}", ds.alpha, if pr.zoops { "zoops" } else { "oops" }, cfgs::arm_name(arm), s);
+                rep.eval_distinct(true);
+                match run_ds(&ds, pr, arm, &init, &steps) {
+                    Err(p) => rep.violation(sig(&format!("panic {}", vx_core::util::panic_class(&p))), format!("panic: {}", p), || large_json(pr, arm, &h)),
+                    Ok(r) => {
+                        rep.add_states(r.steps.len() as u64 + 1, r.steps.len() as u64, r.steps.len() as u64, r.steps.len() as u64);
+                        if let Err((s, m)) = check_state(&ds, &r.init, &r.init_public) {
+                            rep.violation(sig(&format!("initial {}", s)), short_msg(&m), || large_json(pr, arm, &h));
+                            continue;
+                        }
+                        for st in &r.steps {
+                            if let Err((s, m)) = check_step(&ds, pr, st) {
+                                rep.violation(sig(&s), short_msg(&m), || large_json(pr, arm, &h));
+                                break;
+                            }
+                        }
+                    }
+                }
+            }
+        }
+    }
+}
+
+fn short_msg(m: &str) -> String {
+    if m.len() > 600 {
+        format!("{}...", &m[..600])
+    } else {
+        m.to_string()
+    }
+}
+
+fn large_json(pr: &Params, arm: Forced, h: &Hist) -> Value {
+    json!({
+        "kind": "large",
+        "mode": if pr.zoops { "zoops" } else { "oops" },
+        "seeds": pr.seeds, "inertia": pr.inertia, "patience": pr.patience,
+        "arm": cfgs::arm_name(arm),
+        "init_bits": h.init.iter().map(|f| f.to_bits().to_string()).collect::<Vec<_>>(),
+        "step_bits": h.steps.iter().map(|s| vec![s[0].to_bits().to_string(), s[1].to_bits().to_string()]).collect::<Vec<_>>(),
+    })
+}
+
 pub fn run(ctx: &mut Ctx, rep: &mut Report) {
+    if ctx.wants("large") {
+        run_large(ctx, rep);
+    }
+    if !ctx.wants("sampler") {
+        return;
+    }
     rep.space(
         "sampler",
         "explicit-state BFS to fixpoint over the real Sampler with a scripted RNG: datasets (DNA / protein, 3-4 sequences of length 4..=7, one with the wildcard, widths 2 and 3) x modes {oops; zoops seeds 2 with (inertia,patience) in {(0,1),(2,3)} (+3 more thorough)} x dispatcher arms; \
@@ -768,6 +853,21 @@ pub fn run(ctx: &mut Ctx, rep: &mut Report) {
 pub fn replay(_ctx: &mut Ctx, rep: &mut Report, v: &Value) {
     rep.space("replay", "replay of one recorded RNG script");
     if v.get("machinery").is_some() {
+        return;
+    }
+    if v["kind"].as_str() == Some("large") {
+        // re-run the whole (cheap) space restricted to nothing: the case is fully determined by the script
+        let mut scratch = Report::new("C16");
+        let mut c = Ctx::new(vx_core::Tier::Quick, 0, 1, 0, std::time::Duration::from_secs(600));
+        c.only = Some("large".into());
+        run_large(&mut c, &mut scratch);
+        rep.eval_distinct(true);
+        for viol in scratch.violations {
+            if viol.case["arm"] == v["arm"] && viol.case["mode"] == v["mode"] && viol.case["step_bits"] == v["step_bits"] {
+                let case = viol.case.clone();
+                rep.violation(viol.sig, viol.msg, || case);
+            }
+        }
         return;
     }
     let ds = Dataset {
